@@ -9,6 +9,7 @@ certificates over the joint automaton regenerated from the live Loader/Dumper cl
 -/
 import Jap.Lemmas.ScalarCert
 import Jap.Lemmas.ScalarJson
+import Jap.Lemmas.EmitterRoundtrip
 
 namespace Jap.Props.C01
 open Jap.Scalar
@@ -109,6 +110,65 @@ theorem C01_json_string_rt_witnesses :
 /-- the hypothesis of the partial theorem is satisfiable by a non-trivial string (quotes, backslash, control
 characters, blanks, non-BMP) -/
 example : ∀ c ∈ "hé \"q\" \\ \t\n\r\u0001 x  😀\ufeff".toList, jsonSafe c = true := by decide +kernel
+
+/-! ### the str round trip through the yaml text, inside the model
+
+`emitScalar col s` is the text `Emitter` writes for the str value `s` starting at column `col` (analyze_scalar,
+choose_scalar_style with the dumper's resolver verdict, write_plain / write_single_quoted / write_double_quoted);
+`loadLine` is the scanner's reading of a line that starts with a scalar (fetch decision, plain / single-quoted /
+double-quoted scanning, the reader's character check) together with the loader's resolver for plain text.
+`emitScalar` is `none` — outside the model — exactly when `s` contains a line break (LF, NEL, LS, PS: multi-line
+styles) or when the text does not fit into `best_width` (= 80, extracted) from column `col`, in which case the
+real emitter may fold it at a space.  No other hypothesis remains: every other string over all Unicode scalar
+values is covered (C0/C1 controls, DEL, BOM, U+FFFE/U+FFFF, non-BMP … are written double-quoted with escapes). -/
+
+/-- value position: whatever the emitter writes for a single-line str that fits the line is read back as that str -/
+theorem C01_str_scalar_roundtrip (col : Nat) (s t : List Char) (h : emitScalar col s = some t) :
+    loadLine t = some (Tag.str, s, []) := by
+  unfold emitScalar at h
+  split at h
+  · cases h
+  · rename_i hml
+    split at h
+    · injection h with h; subst h
+      have := text_roundtrip false s [] (by simpa using hml) (fun h => by cases h) (Or.inl rfl) rfl
+      simpa using this
+    · cases h
+
+/-- simple-key position (`check_simple_key`: non-empty, shorter than 128, single line; never folded): the key text
+followed by `:` and a blank (or the end of the line) is read back as that str, leaving the `:` -/
+theorem C01_str_key_roundtrip (s t rest : List Char) (h : emitKey s = some t) (hb : followedBlankZ rest = true)
+    (hr : rest.all yamlPrintable = true) :
+    loadLine (t ++ Char.ofNat 58 :: rest) = some (Tag.str, s, Char.ofNat 58 :: rest) := by
+  unfold emitKey at h
+  split at h
+  · cases h
+  · rename_i hc
+    injection h with h; subst h
+    simp only [Bool.or_eq_true, not_or, Bool.not_eq_true] at hc
+    have hcolon : yamlPrintable (Char.ofNat 58) = true := by decide
+    exact text_roundtrip true s (Char.ofNat 58 :: rest) hc.1.1 (fun _ hs => by simp [hs] at hc)
+      (Or.inr ⟨rest, rfl, hb⟩) (by simp [hcolon, hr])
+
+/-- the domain of the model: defined for every single-line string whose text fits into best_width -/
+theorem C01_emitScalar_defined (col : Nat) (s : List Char) (h1 : isMultiline s = false)
+    (h2 : col + (textOf false s).length ≤ Gen.DumpCfg.yamlBestWidth) : emitScalar col s = some (textOf false s) := by
+  simp [emitScalar, h1, h2]
+
+theorem C01_emitKey_defined (s : List Char) (h1 : isMultiline s = false) (h2 : s ≠ []) (h3 : s.length < 128) :
+    emitKey s = some (textOf true s) := by
+  have : s.isEmpty = false := by cases s <;> simp_all
+  simp [emitKey, h1, this]; omega
+
+/-- the three styles occur; float-like strings are quoted (row 1 repaired), `: ` and ` #` force quotes, a TAB
+forces double quotes, the empty string is written `''` -/
+example : emitScalar 3 "abc".toList = some "abc".toList ∧ emitScalar 3 "1e3".toList = some "'1e3'".toList ∧
+    emitScalar 3 "a: b".toList = some "'a: b'".toList ∧ emitScalar 3 "a #b".toList = some "'a #b'".toList ∧
+    emitScalar 3 "it's".toList = some "it's".toList ∧ emitScalar 3 "'q'".toList = some "'''q'''".toList ∧
+    emitScalar 3 "a\tb".toList = some "\"a\\tb\"".toList ∧ emitScalar 3 [] = some "''".toList ∧
+    emitScalar 3 "-x".toList = some "-x".toList ∧ emitScalar 3 "- x".toList = some "'- x'".toList ∧
+    emitKey "a:b".toList = some "a:b".toList ∧ emitKey [] = none ∧ emitScalar 3 "a\nb".toList = none := by
+  decide +kernel
 
 /-! ### non-vacuity and the repaired row 1 -/
 
